@@ -83,15 +83,17 @@ package fscache
 import (
 	"cmp"
 	"context"
-	"crypto/rand"
+	crand "crypto/rand"
 	"errors"
 	"fmt"
 	"io"
 	"io/fs"
+	"math/rand/v2"
 	"net/url"
 	"os"
 	"path/filepath"
 	"slices"
+	"strconv"
 	"strings"
 	"time"
 
@@ -196,7 +198,7 @@ func WithEncryption(key string) Option {
 		if key == "" {
 			return errEncryptionEnabledWithoutKey
 		}
-		c.enc, err = newAESGCMEncryptor(rand.Reader, key)
+		c.enc, err = newAESGCMEncryptor(crand.Reader, key)
 		return err
 	})
 }
@@ -409,20 +411,37 @@ func (c *fsCache) set(key string, entry []byte) error {
 		}
 	}
 	name := c.fn.FileName(key)
-	if err := c.root.MkdirAll(filepath.Dir(name), 0o755); err != nil {
+	dir := filepath.Dir(name)
+	if err := c.root.MkdirAll(dir, 0o755); err != nil {
 		return err
 	}
-	f, err := c.root.Create(name)
+	// Write a temporary file and rename it over the destination: a concurrent
+	// Get, or one after a failed write or a crash, sees the previous value or
+	// the new one in full, never a partial one.
+	tmp := filepath.Join(dir, tempFilePrefix+strconv.FormatUint(rand.Uint64(), 36))
+	f, err := c.root.OpenFile(tmp, os.O_WRONLY|os.O_CREATE|os.O_EXCL, 0o666)
 	if err != nil {
 		return err
 	}
-	defer f.Close()
 	_, err = f.Write(entry)
-	if err != nil {
-		return err
+	if err == nil {
+		err = f.Sync()
 	}
-	return f.Sync()
+	if cerr := f.Close(); err == nil {
+		err = cerr
+	}
+	if err == nil {
+		err = c.root.Rename(tmp, name)
+	}
+	if err != nil {
+		_ = c.root.Remove(tmp)
+	}
+	return err
 }
+
+// tempFilePrefix starts the name of the temporary files written by set. It is
+// not part of the base64url alphabet, so these never coincide with a key's file.
+const tempFilePrefix = ".tmp-"
 
 func (c *fsCache) Delete(key string) error {
 	ctx, cancel := context.WithTimeout(context.Background(), c.timeout)
@@ -491,7 +510,7 @@ func (c *fsCache) keys(prefix string) ([]string, error) {
 		if err != nil {
 			return err
 		}
-		if d.IsDir() {
+		if d.IsDir() || strings.HasPrefix(d.Name(), tempFilePrefix) {
 			return nil
 		}
 		key, err := c.fnk.KeyFromFileName(
